@@ -24,6 +24,15 @@ import (
 
 const root = "/verif"
 
+// outRoot is where a run writes (evidence, replays/out, .work): /verif, unless VERIF_OUT redirects it
+// (scripts/mutant.sh uses that so that runs against deliberately broken trees never touch the committed evidence).
+func outRoot() string {
+	if d := os.Getenv("VERIF_OUT"); d != "" {
+		return d
+	}
+	return root
+}
+
 // Violation is one failing case, identified by Key (a stable name of the
 // failing input / call site / history class used to match known findings).
 type Violation struct {
@@ -231,7 +240,7 @@ func (c *Check) NumViolations() int {
 }
 
 func (c *Check) workDir() string {
-	d := filepath.Join(root, ".work", c.ID)
+	d := filepath.Join(outRoot(), ".work", c.ID)
 	_ = os.MkdirAll(d, 0o755)
 	return d
 }
@@ -542,9 +551,9 @@ func (c *Check) Finish(cov map[string]interface{}) {
 		"assumptions": c.Assume, "wall_s": float64(int(time.Since(c.start).Seconds()*100)) / 100, "violations": len(unknown),
 		"known_findings_reproduced": knownHit,
 	}
-	_ = os.MkdirAll(filepath.Join(root, "evidence"), 0o755)
+	_ = os.MkdirAll(filepath.Join(outRoot(), "evidence"), 0o755)
 	data, _ := json.MarshalIndent(e, "", " ")
-	if err := ioutil.WriteFile(filepath.Join(root, "evidence", c.ID+".json"), append(data, '\n'), 0o644); err != nil {
+	if err := ioutil.WriteFile(filepath.Join(outRoot(), "evidence", c.ID+".json"), append(data, '\n'), 0o644); err != nil {
 		fmt.Println("ENGINE-ERROR: cannot write evidence:", err)
 		os.Exit(2)
 	}
@@ -556,7 +565,7 @@ func (c *Check) Finish(cov map[string]interface{}) {
 		fmt.Println("ENGINE-ERROR:", m)
 	}
 	if len(unknown) > 0 {
-		dir := filepath.Join(root, "replays", "out")
+		dir := filepath.Join(outRoot(), "replays", "out")
 		_ = os.MkdirAll(dir, 0o755)
 		for i, k := range unknown {
 			v := c.st.Violations[k]
